@@ -610,3 +610,6 @@ def rules(ctx):
     product_units(ctx)
     from . import common_backend as _Bk
     _Bk.polar_pair(ctx, "C02.polar", ("ops.py", "decompositions.py"))
+    nu = _Bk.unitary_from_symplectic(ctx, "C02.block-sign", ("ops.py",))
+    ctx.require(nu >= 3, f"only {nu} unitary-from-symplectic extractions found in ops.py")
+    ctx.floor("C02.block-sign", 3)
